@@ -11,7 +11,7 @@ namespace Rl.Drv.Ed
 open Rl Rl.Wire Rl.Spec
 
 def handle (tbl : CharTable) (target : String) (f : List String) (impl : String) : Option (String × String) := do
-  let (model, cfg) ← Rl.Drv.Editor.handleCore tbl f
+  let (model, cfg) ← Rl.Drv.Editor.handleCore tbl f (sqlite := target == "ed07s")
   if target == "ed" then pure (model, "-")
   else
     match parseImpl impl with
@@ -28,7 +28,7 @@ def handle (tbl : CharTable) (target : String) (f : List String) (impl : String)
       let v : OVerdict :=
         if target == "ed17" then oracleC17 o
         else if target == "ed13" then firstFail [oracleC17 o, oracleC13 cfg.validator o]
-        else if target == "ed07" then firstFail [oracleC17 o, oracleC07 cfg.hist cfg.hasCompleter (!cfg.listCompletion) o]
+        else if target == "ed07" || target == "ed07s" then firstFail [oracleC17 o, oracleC07 cfg.hist cfg.hasCompleter (!cfg.listCompletion) o]
         else if target == "ed08" then firstFail [oracleC17 o, oracleC08 cfg.hist o]
         else if target == "ed06" then firstFail [oracleC17 o, oracleC06 o]
         else if target == "ed05" then firstFail [oracleC17 o, oracleC05 cfg.hasCompleter (!cfg.hist.isEmpty) o]
